@@ -6,7 +6,9 @@
   C09.c tables     insertion_offset(section) consults exactly the start offsets of the later sections, in wire order, else the end
                    of the packet; insert_rr, per section, records its own start with or(Some(insertion_offset)) and shifts exactly
                    the later sections' offsets plus offset_edns
-  C09.d pairing    every successful path of insert_rr performs exactly one rrcount_inc of the section argument
+  C09.d pairing    every successful path of insert_rr performs exactly one rrcount_inc of the section argument; every successful
+                   path of delete lowers exactly one count, the one of the section the record was in *before* the splice moved the
+                   section boundaries (C09.d-delete = the delete-protocol automaton of C11.a)
                    (delete <-> rrcount_dec is decided under C11.a)
   C09.e pointer-free  insert_rr, set_raw_name and delete resize the buffer / overwrite name bytes only on paths where maybe_compressed is
                    known to be false (after the normalisation), so no other record's compression pointer can be invalidated
@@ -215,7 +217,10 @@ def run(ctx):
         if cfg != 'hooks':
             from rules import geometry
             geometry.resize_rule(ctx, facts, cfg, 'C09.a')
+            geometry.shift_closure_rule(ctx, facts, cfg, 'C09.a-offsets')
             geometry.insert_rule(ctx, facts, cfg, 'C09.a', 'C09.a-arith', facts.const_val('constants::DNS_MAX_UNCOMPRESSED_SIZE') or 8192)
+        from rules import C11
+        C11.delete_protocol_rule(ctx, facts, cfg, 'C09.d-delete')
         # ---------------- C09.b --------------------------------------------------
         layout.check_writers(ctx, facts, cfg, 'C09.b')
         for key in facts.inst_keys('rr_iterator::RdataIterable::rr_ip'):
